@@ -81,11 +81,12 @@ type genCase struct {
 	SlabFill  int
 	SlabSize  int
 	AsBytes   bool // ASCII text held as bytes (else as runes)
+	Used      bool // the line has been looked at before: its read-only accessors were called (they may cache)
 }
 
 func (c genCase) String() string {
 	return fmt.Sprintf("scheme=%s pat=%q cs=%v norm=%v text=%q fwd=%v withPos=%v slab=%s/%d/%d bytes=%v",
-		c.Scheme, string(c.Pattern), c.Fold.CaseSensitive, c.Fold.Normalize, string(c.Text), c.Forward, c.WithPos, c.Slab, c.SlabFill, c.SlabSize, c.AsBytes)
+		c.Scheme, string(c.Pattern), c.Fold.CaseSensitive, c.Fold.Normalize, string(c.Text), c.Forward, c.WithPos, c.Slab, c.SlabFill, c.SlabSize, c.AsBytes) + fmt.Sprintf(" used=%v", c.Used)
 }
 
 func isASCII(rs []rune) bool {
@@ -238,6 +239,7 @@ func genCommon(t *rapid.T, maxPat int, longOK bool) genCase {
 		c.SlabFill = rapid.SampledFrom([]int{0, 1, -1, 40}).Draw(t, "fill")
 	}
 	c.AsBytes = isASCII(c.Text) && rapid.Bool().Draw(t, "asBytes")
+	c.Used = rapid.IntRange(0, 2).Draw(t, "used") == 0
 	return c
 }
 
@@ -271,12 +273,24 @@ func (c genCase) slab() *util.Slab {
 }
 
 func (c genCase) chars() util.Chars {
+	var ch util.Chars
 	if c.AsBytes {
-		return util.ToChars([]byte(string(c.Text)))
+		ch = util.ToChars([]byte(string(c.Text)))
+	} else {
+		cp := make([]rune, len(c.Text))
+		copy(cp, c.Text)
+		ch = util.RunesToChars(cp)
 	}
-	cp := make([]rune, len(c.Text))
-	copy(cp, c.Text)
-	return util.RunesToChars(cp)
+	if c.Used {
+		// what ranking and rendering do with a line between two searches
+		ch.TrimLength()
+		ch.LeadingWhitespaces()
+		ch.TrailingWhitespaces()
+		ch.NumLines(10)
+		_ = ch.ToString()
+		_ = ch.Length()
+	}
+	return ch
 }
 
 func derefPos(p *[]int) []int {
